@@ -377,6 +377,21 @@ def run(ck, replay=None):
         sel = thists if not quick else [h for h in thists if len(h) <= 4]
         tspecs.append((sel, "transformation-" + kind, make, use, lambda x, y: x.shape == y.shape and np.allclose(x, y, rtol=1e-9, atol=1e-9), "twin:" + kind))
     ck.cov["twin_object_histories"] = twoobj.run(ck, "C09", tspecs)
+    # one transformation correction applied again after calls it rejected (spec/FailedCalls.tla): it still moves the voxels
+    # its transformation prescribes
+    from lib import failedcalls
+    fhists = failedcalls.histories(ck)
+    fspecs = []
+    for (_, kind, make, use, same, tid) in list(tspecs):
+        bads = [lambda: None, lambda: "not an image", lambda: np.zeros((4, 5)),
+                lambda: darsia.Image(np.zeros((3, 4, 5)), space_dim=3, dimensions=[1.0, 1.0, 1.0], scalar=True)]
+        for bi, bad in enumerate(bads):
+            def fmisuse(obj, bad=bad):
+                with warnings.catch_warnings():
+                    warnings.simplefilter("ignore")
+                    return obj[1](bad())
+            fspecs.append((fhists, f"{kind}-bad{bi}", lambda make=make: make("a"), lambda obj, use=use: use("a", obj), fmisuse, same, f"failed:{kind}:{bi}"))
+    ck.cov["failed_call_histories"] = failedcalls.run(ck, "C09", fspecs)
     events = []
     if replay:
         for c in json.load(open(replay))["cases"]:
